@@ -738,6 +738,26 @@ impl Emit {
         true
     }
 
+    /// pops the most recent clip or the innermost layer, whichever the coin says (C07: any order
+    /// of pops is a legal call sequence as long as every pop has its push)
+    pub fn any_pop(&mut self, rng: &mut Rng, surf: usize) {
+        let b = &self.shadows[surf].brackets;
+        let has_clip = b.iter().any(|x| !matches!(x.0, mk::Bracket::Layer));
+        let has_layer = b.iter().any(|x| matches!(x.0, mk::Bracket::Layer));
+        match (has_clip, has_layer) {
+            (true, true) => {
+                if rng.chance(1, 2) {
+                    self.push(surf, Op::PopClip)
+                } else {
+                    self.push(surf, Op::PopLayer)
+                }
+            }
+            (true, false) => self.push(surf, Op::PopClip),
+            (false, true) => self.push(surf, Op::PopLayer),
+            _ => {}
+        }
+    }
+
     pub fn close_all(&mut self) {
         for s in 0..self.surfaces.len() {
             while !self.shadows[s].brackets.is_empty() {
@@ -770,9 +790,12 @@ impl DrawCfg {
 pub fn gen_int_rect_f(rng: &mut Rng, w: i32, h: i32) -> [F; 4] {
     let x = rng.range(-3, w + 2);
     let y = rng.range(-3, h + 2);
-    let (rw, rh) = match rng.below(8) {
+    let (rw, rh) = match rng.below(10) {
         0 => (0, rng.range(0, h + 2)),
         1 => (rng.range(0, w + 2), 0),
+        // a negative extent describes the same rectangle from its other corner
+        2 => (-rng.range(1, w + 2), rng.range(1, h + 2)),
+        3 => (rng.range(1, w + 2), -rng.range(1, h + 2)),
         _ => (rng.range(1, w + 4), rng.range(1, h + 4)),
     };
     [F(x as f32), F(y as f32), F(rw as f32), F(rh as f32)]
@@ -1142,7 +1165,7 @@ pub fn gen_scene(rng: &mut Rng, em: &mut Emit, surf: usize, cfg: &SceneCfg) {
         // perturbations are biased to land right after a state change
         let p_nop = if after_state_change { cfg.p_nop * 3 } else { cfg.p_nop };
         after_state_change = false;
-        if cfg.early_clip_pop && layer_depth > 0 && rng.chance(1, 12) && em.replace_clip_under_layer(rng, surf) {
+        if cfg.early_clip_pop && layer_depth > 0 && rng.chance(1, 8) && em.replace_clip_under_layer(rng, surf) {
             after_state_change = true;
         } else if hit(cfg.p_clip) && clip_depth < cfg.max_clip {
             if rng.chance(1, 2) {
@@ -1182,7 +1205,7 @@ pub fn gen_scene(rng: &mut Rng, em: &mut Emit, surf: usize, cfg: &SceneCfg) {
             em.push(surf, Op::PushLayer { opacity: F(opacity), blend, plain });
             after_state_change = true;
         } else if hit(cfg.p_pop) && open > 0 {
-            if cfg.early_clip_pop && rng.chance(1, 4) {
+            if cfg.early_clip_pop && rng.chance(1, 3) {
                 if rng.chance(1, 2) {
                     em.early_clip_pop(surf);
                 } else {
